@@ -475,7 +475,7 @@ impl Property for C29 {
         "malformed pool requests (wrong key size, unknown AEAD id, support request asking for nothing) only need: no cookies, no handle, connection closed",
         "virtual-time timeout (paused tokio clock) distinguishes 'connection left open' from 'closed'",
     ];
-    const QUICK_CASES: u32 = 40_000;
+    const QUICK_CASES: u32 = 120_000;
     const THOROUGH_CASES: u32 = 1_200_000;
 
     fn strategy(_tier: Tier) -> BoxedStrategy<Case> {
